@@ -534,6 +534,15 @@ pub fn write_replay(prop: &dyn Prop, seed: u64, r: &Value, min: Option<&Minimise
     Ok(path)
 }
 
+/// a replay file whose violation needs the runs that preceded it in the same worker process
+pub fn write_replay_with_history(prop: &dyn Prop, seed: u64, r: &Value, history: &[Value], name_hint: &str) -> Result<PathBuf, String> {
+    let path = write_replay(prop, seed, r, None, name_hint)?;
+    let mut body: Value = std::fs::read_to_string(&path).ok().and_then(|t| serde_json::from_str(&t).ok()).ok_or("cannot re-read the replay file")?;
+    body["history"] = json!(history);
+    std::fs::write(&path, serde_json::to_string_pretty(&body).unwrap()).map_err(|e| e.to_string())?;
+    Ok(path)
+}
+
 pub fn check(prop: &'static dyn Prop, opts: CheckOpts) -> i32 {
     let t0 = Instant::now();
     clean_stale_jails();
@@ -655,6 +664,52 @@ pub fn check(prop: &'static dyn Prop, opts: CheckOpts) -> i32 {
             }
         };
         if class_of(&confirm).as_deref() != Some(class.as_str()) || confirm["digest"] != min.result["digest"] {
+            // Not reproduced alone. Before calling it a harness error: does it come back after the runs that preceded
+            // it in the same worker process? Then the code under test keeps state from one run to the next (a cache
+            // that is never invalidated, a table that is not reset) - a violation whose replay needs its history
+            let i = f["i"].as_u64().unwrap_or(0);
+            let chunk_start = from + ((i.saturating_sub(from)) / chunk.max(1)) * chunk.max(1);
+            let solo = Pool { prop, workers: 1, duck: opts.duck.clone(), avoid: avoid.clone() };
+            let mut found: Option<(Vec<Value>, Value)> = None;
+            let mut len = 1u64;
+            loop {
+                let a = i.saturating_sub(len).max(chunk_start);
+                let mut cases: Vec<Value> = (a..i).map(|k| regenerate_case(prop, opts.seed, k, &avoid)).collect();
+                cases.push(f["case"].clone());
+                let twice: Vec<Option<Value>> = (0..2).map(|_| solo.eval_cases(&cases).ok().and_then(|rs| rs.last().cloned())).collect();
+                if let (Some(r1), Some(r2)) = (&twice[0], &twice[1]) {
+                    if class_of(r1).as_deref() == Some(class.as_str()) && class_of(r2).as_deref() == Some(class.as_str()) && r1["digest"] == r2["digest"] {
+                        cases.pop();
+                        found = Some((cases, r1.clone()));
+                        break;
+                    }
+                }
+                if a == chunk_start {
+                    break;
+                }
+                len *= 2;
+            }
+            if let Some((history, r)) = found {
+                let mut r = r;
+                r["i"] = json!(i);
+                r["case"] = f["case"].clone();
+                let n = history.len();
+                let detail = format!("(only after the {} runs that preceded it in the same process: state that outlives a run) {}", n, r["verdict"]["detail"].as_str().unwrap_or(""));
+                r["verdict"]["detail"] = json!(detail);
+                match write_replay_with_history(prop, opts.seed, &r, &history, &format!("{}", i)) {
+                    Ok(path) => {
+                        println!("VIOLATION property={} replay={} class={} detail={}", prop.id(), path.display(), class, detail);
+                        violations.push((class.clone(), path));
+                        exit = 1;
+                    }
+                    Err(e) => {
+                        eprintln!("HARNESS-ERROR: cannot write replay file: {}", e);
+                        clean_own_jails(opts.workers);
+                        return 2;
+                    }
+                }
+                continue;
+            }
             eprintln!(
                 "HARNESS-ERROR: violation of {} (class {}, run {}) did not replay identically (class {:?}, digest {} vs {})",
                 prop.id(), class, f["i"], class_of(&confirm), confirm["digest"], min.result["digest"]
@@ -777,7 +832,10 @@ pub fn replay(prop: &'static dyn Prop, path: &str, duck: Option<PathBuf>) -> i32
         }
     };
     let pool = Pool { prop, workers: 1, duck, avoid: vec![] };
-    let rs = match pool.eval_cases(&[file["case"].clone()]) {
+    // (a file with a history: the runs that preceded the failing one in the same process come first, in one worker)
+    let mut cases: Vec<Value> = file["history"].as_array().cloned().unwrap_or_default();
+    cases.push(file["case"].clone());
+    let rs = match pool.eval_cases(&cases) {
         Ok(r) => r,
         Err(e) => {
             eprintln!("HARNESS-ERROR: {}", e);
@@ -786,7 +844,7 @@ pub fn replay(prop: &'static dyn Prop, path: &str, duck: Option<PathBuf>) -> i32
         }
     };
     clean_own_jails(1);
-    let r = &rs[0];
+    let r = rs.last().unwrap_or(&Value::Null);
     match class_of(r) {
         Some(c) => {
             let same_class = file["class"].as_str() == Some(c.as_str());
